@@ -1,5 +1,6 @@
 """Binding of specs/SourceVerify.tla (C12): offer texts to verify(), log CPython's own parse outcome next to pedal's."""
 import ast
+import re
 import glob
 import os
 import random
@@ -65,7 +66,7 @@ def offer(text, offset, other=False, native=False):
     n0 = len(R.feedback) + len(R.ignored_feedback)
     before = {id(f) for f in R.feedback}
     ev = {"cls": cls, "line": line, "offset": offset, "raised": False, "nsyntax": 0, "fbline": 0, "blankfb": False,
-          "tree_ok": False, "tbline": 0}
+          "tree_ok": False, "tbline": 0, "msgline": 0, "fbmsgline": 0}
     try:
         # native=True: the documented option enhance=False (the interpreter's own wording instead of pedal's)
         if other:
@@ -82,6 +83,8 @@ def offer(text, offset, other=False, native=False):
     if syn and syn[0].location is not None and syn[0].location.line is not None:
         ev["fbline"] = syn[0].location.line
     ev["tbline"] = traceback_line(syn[0]) if syn else 0
+    ev["msgline"] = parser_quoted_line(text)
+    ev["fbmsgline"] = feedback_quoted_line(syn[0]) if syn else 0
     ev["blankfb"] = any(f.label == "blank_source" for f in new)
     if cls in ("ok", "blank"):
         try:
@@ -89,6 +92,27 @@ def offer(text, offset, other=False, native=False):
         except Exception:
             ev["tree_ok"] = False
     return ev
+
+
+def parser_quoted_line(text):
+    """The line CPython's own message quotes for this text ("... on line K"), 0 when it quotes none."""
+    import warnings
+    try:
+        with warnings.catch_warnings():
+            warnings.simplefilter("ignore")
+            ast.parse(text, "answer.py")
+    except SyntaxError as e:
+        m = re.search(r"\bon line (\d+)", e.msg or "")
+        return int(m.group(1)) if m else 0
+    except Exception:
+        return 0
+    return 0
+
+
+def feedback_quoted_line(feedback):
+    """The number standing in the same place of the message the learner reads."""
+    m = re.search(r"statement on line (\d+)", str(getattr(feedback, "message", "") or ""))
+    return int(m.group(1)) if m else 0
 
 
 def traceback_line(feedback):
@@ -225,7 +249,7 @@ def section_chunk(items, extra):
         clear_report()
         contextualize_report(whole)
         ev = {"cls": cls, "line": line, "offset": true_offset, "raised": False, "nsyntax": 0, "fbline": 0, "blankfb": False,
-              "tree_ok": False, "sectioned": True, "tbline": 0}
+              "tree_ok": False, "sectioned": True, "tbline": 0, "msgline": 0, "fbmsgline": 0}
         try:
             separate_into_sections(independent=True, report=R)
             for _ in range(k):
@@ -258,6 +282,8 @@ def section_chunk(items, extra):
         if syn and syn[0].location is not None and syn[0].location.line is not None:
             ev["fbline"] = syn[0].location.line
         ev["tbline"] = traceback_line(syn[0]) if syn else 0
+        ev["msgline"] = parser_quoted_line(whole if after_stop else body)
+        ev["fbmsgline"] = feedback_quoted_line(syn[0]) if syn else 0
         ev["blankfb"] = any(f.label == "blank_source" for f in new)
         if cls in ("ok", "blank"):
             try:
